@@ -8,6 +8,9 @@ from .refprinter import Printer, tokenize
 from .harness import Core, depth_in, border_eps, norm_region, hooked_state
 
 TOL = 1e-6
+# K3 (arcs under G91) was repaired in /repo (see known_findings.json "fixed"); the attribution rule is kept, switched off, so
+# that a regression shows up as an ordinary violation and not as a known finding
+TAINT_ARC_UNDER_G91 = False
 END_EVENTS = ("PrintDone", "PrintFailed", "PrintCancelling", "PrintCancelled", "Error")
 
 
@@ -167,7 +170,7 @@ class Engine(object):
         mech = None
         if code == "G92" and letters & set("XYZ"):
             mech = "g92_xyz_offset_sign"
-        elif code in ("G2", "G3") and rec.get("B_before") and not rec["B_before"]["abs_xyz"]:
+        elif TAINT_ARC_UNDER_G91 and code in ("G2", "G3") and rec.get("B_before") and not rec["B_before"]["abs_xyz"]:
             mech = "arc_under_g91"
         elif code in ("G2", "G3") and "R" in letters:
             mech = "r_form_centre"
@@ -289,7 +292,7 @@ class Engine(object):
             if samples is not None:
                 rec["is_move"] = True
                 rec["move_kind"] = "arc"
-                if not Bb["abs_xyz"] and not any(t["end"] is None for t in self.trace.taints):
+                if TAINT_ARC_UNDER_G91 and not Bb["abs_xyz"] and not any(t["end"] is None for t in self.trace.taints):
                     self.trace.taints.append(dict(start=rec["idx"], end=None, mech="arc_under_g91"))
                 unit, shift = Bb["unit"], Bb["shift"]
                 pts = [(samples[k] * unit + shift[0], samples[k + 1] * unit + shift[1])
